@@ -23,9 +23,20 @@ import (
 
 // L2Item and L2Check are set by package c08l2 in binaries built from the rewritten tree.
 var (
-	L2Item  func(idx int, ctx *core.Ctx)
-	L2Check func(sc *core.Scenario) *core.Violation
+	L2Item   func(idx int, ctx *core.Ctx)
+	L2Check  func(sc *core.Scenario) *core.Violation
+	CLIItem  func(idx int, ctx *core.Ctx)
+	CLICheck func(sc *core.Scenario) *core.Violation
+	// CLICleanup removes the CLI layer's work directory.
+	CLICleanup func()
 )
+
+// Cleanup implements the optional worker clean-up hook.
+func (d *D) Cleanup() {
+	if CLICleanup != nil {
+		CLICleanup()
+	}
+}
 
 // D is the driver.
 type D struct{ base []bool }
@@ -291,6 +302,10 @@ func (d *D) RunItem(idx int, ctx *core.Ctx) {
 		L2Item(idx, ctx)
 		return
 	}
+	if idx%10 == 3 && idx >= len(targeted) && CLIItem != nil {
+		CLIItem(idx, ctx)
+		return
+	}
 	sc := d.Base(idx, ctx)
 	if sc == nil {
 		return
@@ -470,6 +485,12 @@ func (d *D) Check(sc *core.Scenario) *core.Violation {
 		}
 		return L2Check(sc)
 	}
+	if sc.Level == "cli" {
+		if CLICheck == nil {
+			return nil
+		}
+		return CLICheck(sc)
+	}
 	if sc.Schedule2 == nil {
 		if sc.Oracle == "native-repeat" {
 			return nil // observation of uncontrolled nondeterminism: replay is probabilistic, not attempted in-process
@@ -493,7 +514,7 @@ func (d *D) Check(sc *core.Scenario) *core.Violation {
 // Shrink reduces the pair of schedules to the fewest differences: plain
 // ascending vs. a single-site flip usually names the range statement responsible.
 func (d *D) Shrink(sc *core.Scenario) []*core.Scenario {
-	if sc.Schedule2 == nil || sc.Level == "L2" {
+	if sc.Schedule2 == nil || sc.Level == "L2" || sc.Level == "cli" {
 		return nil
 	}
 	var out []*core.Scenario
@@ -567,10 +588,12 @@ func (d *D) Describe(ev *core.Evidence, st *core.Stats) {
 	ev.Coverage["map_range_sites_visits_with_2+_keys"] = sites
 	ev.Coverage["map_range_sites_never_reached_with_2+_keys"] = never
 	ev.Coverage["faults_injected"] = map[string]int64{"map-order:desc": c["schedule:desc"], "map-order:rot": c["schedule:rot"], "map-order:shuffle": c["schedule:shuffle"],
-		"map-order:single-site-flip": c["schedule:site-flip"], "native-process-runs": c["native_process_runs"], "L2 arrival-time/clock-cost variants": c["l2_timing_pairs"]}
+		"map-order:single-site-flip": c["schedule:site-flip"], "native-process-runs": c["native_process_runs"], "L2 arrival-time/clock-cost variants": c["l2_timing_pairs"], "CLI in-process repetitions": c["cli_cases"] * 3, "CLI new-process runs": c["cli_native_process_runs"]}
+	ev.Coverage["cli"] = map[string]int64{"cases": c["cli_cases"], "cases_with_svg_output": c["cli_cases_with_svg_output"], "native_process_runs": c["cli_native_process_runs"]}
 	ev.Coverage["simulated_time_s"] = float64(c["simulated_ns"]) / 1e9
 	ev.Coverage["steps"] = c["steps"]
-	ev.Coverage["components"] = map[string][]string{"real": {"lexer", "parser", "formatter", "evaluator", "builtins"}, "stub": {"platform (SimPlatform)", "Go map iteration order (maporder seam)", "clock (simtime)", "global math/rand (simrand)"}}
+	ev.Coverage["components"] = map[string][]string{"real": {"lexer", "parser", "formatter", "evaluator", "builtins"}, "real in the CLI layer": {"kong, runCmd.Run (--rand-seed, --svg-out), cli.Platform, svg platform; the real binary in fresh processes for a sample"},
+		"stub": {"platform (SimPlatform)", "Go map iteration order (maporder seam)", "clock (simtime)", "global math/rand (simrand)"}}
 	ev.Assumptions = []string{
 		"order of Evaluator.EventHandlerNames / Program.CalledBuiltinFuncs is not a user-visible observable (the page treats them as sets)",
 		"the cross-process layer observes nondeterminism it does not control; a mismatch found only there is reported with replay_exact=false",
